@@ -22,6 +22,7 @@ ANCHORS = ["hashtable.py::Counter.count", "hashtable.py::Counter.__init__", "rag
 FLOOR_TAGS = ["init:default", "init:scalar0", "init:scalar", "init:array", "init:array-fractional", "init:array-uint64", "batch:empty", "batch:nokey", "batch:onlykeys", "batch:mixed", "batch:heavy", "batch:collide",
               "batch:wide", "batch:pylist", "batch:othersign", "batch:huge", "keys>=33", "mod:1", "mod:None", "mod:explicit", "state:first-hit-on-scalar0", "state:first-hit-on-scalar", "state:array", "no-hit-call"]
 FLOOR_MONITORS = ["c12:batch", "c12:twin-read-at-end", "c12:twin-one-batch", "c12:twin-resplit", "c12:twin-modulus"]
+FP_STRICT = True       # a floating-point event inside the library that the dense computation does not have is a violation (shard.FpMonitor)
 N_RANDOM = {"quick": 7500, "thorough": 100000}
 
 
